@@ -565,13 +565,13 @@ def run_atheris(ctx, n):
 
 
 SUBS = [
-    Sub("raw", run_kind("raw"), replay, quick=2500, thorough=100000),
-    Sub("cseg", run_kind("cseg"), replay, quick=6000, thorough=300000),
-    Sub("jpeg", run_kind("jpeg"), replay, quick=4000, thorough=150000),
-    Sub("valid", run_valid, replay, quick=1500, thorough=40000),
-    Sub("valid_large", run_valid_large, replay, quick=24, thorough=400,
+    Sub("raw", run_kind("raw"), replay, quick=2500, thorough=200000),
+    Sub("cseg", run_kind("cseg"), replay, quick=6000, thorough=600000),
+    Sub("jpeg", run_kind("jpeg"), replay, quick=4000, thorough=300000),
+    Sub("valid", run_valid, replay, quick=1500, thorough=80000),
+    Sub("valid_large", run_valid_large, replay, quick=24, thorough=800,
         shards=6),
-    Sub("codec_reuse", run_reuse, replay, quick=800, thorough=20000),
+    Sub("codec_reuse", run_reuse, replay, quick=800, thorough=40000),
     Sub("atheris", run_atheris, replay, quick=30000, thorough=120,
         serial=True),
 ]
